@@ -496,17 +496,28 @@ class CooperativeAwarenessMessage:
             Position confidence ellipse value.
         """
         position_confidence_ellipse = {
-            "semiMajorAxisLength": int(epx * 100),
-            "semiMinorAxisLength": int(epy * 100),
+            "semiMajorAxisLength": self.semi_axis_length(epx),
+            "semiMinorAxisLength": self.semi_axis_length(epy),
             "semiMajorAxisOrientation": 0,
         }
         if epy >= epx:
             position_confidence_ellipse = {
-                "semiMajorAxisLength": int(epy * 100),
-                "semiMinorAxisLength": int(epx * 100),
+                "semiMajorAxisLength": self.semi_axis_length(epy),
+                "semiMinorAxisLength": self.semi_axis_length(epx),
                 "semiMajorAxisOrientation": 0,
             }
         return position_confidence_ellipse
+
+    @staticmethod
+    def semi_axis_length(error_estimate: float) -> int:
+        """
+        Translates an error estimate in metres to a SemiAxisLength value (0,01 m).
+
+        SemiAxisLength is defined on 1..4093; 4094 means out of range (more than
+        40,93 m) and 0 shall not be used, so the value is clamped instead of
+        being left to wrap in the 12-bit field.
+        """
+        return max(1, min(4094, int(error_estimate * 100)))
 
     # def create_altitude_confidence(self, epv: float) -> str:
     #     """
@@ -608,7 +619,8 @@ class CooperativeAwarenessMessage:
         """
         heading_confidence = 126
         if epd <= 12.5:
-            heading_confidence = int(epd * 10)
+            # HeadingConfidence is defined on 1..125 (0,1 degree); 0 is not a value.
+            heading_confidence = max(1, int(epd * 10))
         return heading_confidence
 
     def __str__(self) -> str:
